@@ -576,6 +576,7 @@ structure Res where
   removed : List T := []
   out : Option T := none
   err : Option Err := none
+  upd : Upd := .keep      -- what `_invalidate_duration` hands on above the root (followed only by `applyBeside`)
 
 /-- largest uid in a tree + 1 -/
 def uidBound : T → Nat
@@ -619,7 +620,7 @@ def applyR (op : Op) (s : St) : Res :=
   | _ =>
     match atPath (op.loc s.next) op.target s.tree with
     | none => { st := s, err := some .badPath }
-    | some r => { st := ⟨r.node, r.next⟩, removed := r.removed, out := r.out, err := r.err }
+    | some r => { st := ⟨r.node, r.next⟩, removed := r.removed, out := r.out, err := r.err, upd := r.upd }
 
 def apply (op : Op) (s : St) : St := (applyR op s).st
 
@@ -636,6 +637,56 @@ def Pre (op : Op) (s : St) : Prop :=
 def PreAll : List Op → St → Prop
   | [], _ => True
   | op :: ops, s => Pre op s ∧ PreAll ops (apply op s)
+
+/-! ## PF-C09-2 (open): the parent pointer of a detached node or of a copy is still followed
+
+`copy_tree_structure()` gives the copy the ORIGINAL's parent pointer and `Node.__setitem__` leaves
+the parent pointer of removed children in place.  `_invalidate_duration` on such a tree `d` does
+not stop at its root: `if self.parent:` holds and the former parent — a node of another tree `t`
+that does not list `d` — gets its cache patched. -/
+
+mutual
+/-- `_invalidate_duration` arriving at the node `uid` of the tree (through a stale parent pointer) -/
+def escT (u : Upd) (uid : Nat) : T → Option (T × Upd)
+  | .mk i ks =>
+    if i.uid = uid then
+      -- `if self.parent:` is False for a parent without children (`Node.__len__`)
+      (if ks.isEmpty then none else some (invalidate u (.mk i ks)))
+    else
+      match escL u uid ks with
+      | none => none
+      | some r => some (invalidate r.2 (.mk i r.1))
+def escL (u : Upd) (uid : Nat) : List T → Option (List T × Upd)
+  | [] => none
+  | c :: cs =>
+    match escT u uid c with
+    | some r => some (r.1 :: cs, r.2)
+    | none =>
+      match escL u uid cs with
+      | some r => some (c :: r.1, r.2)
+      | none => none
+end
+
+/-- an operation on the tree `d` (a detached sub-tree or a copy) next to the tree `t`: besides `d`
+itself, `t` changes if `d`'s root still points to one of `t`'s nodes -/
+def applyBeside (op : Op) (t : T) (d : St) : T × Res :=
+  let r := applyR op d
+  match d.tree.info.par with
+  | none => (t, r)
+  | some u =>
+    match escT r.upd u t with
+    | some e => (e.1, r)
+    | none => (t, r)
+
+/-- all uids of a tree -/
+def uids : T → List Nat
+  | .mk i ks => i.uid :: uidsL ks
+where uidsL : List T → List Nat
+  | [] => []
+  | c :: cs => uids c ++ uidsL cs
+
+/-- the class of the open finding PF-C09-2: the edited tree's root points to a node of the other tree -/
+def InKnownClass (t : T) (d : St) : Prop := ∃ u, d.tree.info.par = some u ∧ u ∈ uids t
 
 /-! ## `Loop.__eq__` -/
 
@@ -788,6 +839,13 @@ def handle : List Sexp → Sexp
       if ops.length ≠ dumps.length then Sexp.err "length-mismatch" else
       .list (.atom "ok" :: judgeS (treeS t) :: checkOps ops dumps ⟨t, n⟩)
     | _, _, _ => Sexp.err "bad-args"
+  | [.atom "beside", t, d, n, o] =>
+    match tree? t, tree? d, nat? n, op? o with
+    | some t, some d, some n, some o =>
+      let r := applyBeside o t ⟨d, n⟩
+      .list [.atom "ok", treeS r.1, treeS r.2.st.tree, optS (fun e => .atom (errName e)) r.2.err,
+             ofBool (coherentB r.1), ofBool (coherentB r.2.st.tree)]
+    | _, _, _, _ => Sexp.err "bad-args"
   | [.atom "judge", t] => judgeS t
   | [.atom "dur", t] =>
     match tree? t with
